@@ -1,10 +1,12 @@
 import Driver.KV
 import Driver.Shell
 import Driver.Ons
+import Driver.Deleg
 
 def main (args : List String) : IO UInt32 := do
   match args with
   | ["kv"] => Driver.KV.main; return 0
   | ["shell"] => Driver.Shell.main; return 0
   | ["ons"] => Driver.Ons.main; return 0
+  | ["deleg"] => Driver.Deleg.main; return 0
   | _ => IO.eprintln "usage: olpdriver <engine>  (engines: kv, shell)"; return 2
